@@ -23,18 +23,23 @@ META = {
         "other-kind quotes, non-ASCII, newlines in triple quotes; fields with expressions incl. strings of the same/other quote, nested "
         "f-strings to depth 2, multi-line fields, backslashes; '=' debug, !r/!s/!a, specs with text and nested fields to depth 2), embedded in "
         "statements exercising adjacency (concatenation with plain strings and f-strings, several literals per line / on separate lines, "
-        "braces later on the line, across lines in brackets), plus every statement of the corpus sample that contains an f-string.  "
+        "braces later on the line, across lines in brackets), plus every statement of the corpus sample that contains an f-string; hand-written edge forms; "
+        "every run of up to three adjacent literals out of 14 kinds and every run of up to three pieces inside one literal out of 13 kinds (longer runs "
+        "sampled); an f-string text soup (runs of backslashes, quotes of every kind, braces, fields in every delimiter and prefix); where a text has a "
+        "backslash-newline the token comparison is repeated on its CRLF spelling.  "
         "Only texts ast.parse accepts.  Oracle: astdiff(ast.parse, parse_string, positions=True) is empty; token streams (incl. FSTRING_START/"
         "MIDDLE/END) equal CPython's tokenize unless the literal contains doubled braces (CPython's tokenize shortens those middles itself).  "
         "non-trivial = >=1 replacement field plus >=1 of {conversion, '=', spec, nested field, nested f-string, escape, doubled brace, "
         "adjacency, multi-line}; distinct by text."
     ),
-    "assumptions": ["reference = ast.parse / tokenize of the CPython 3.12 running the check", "token comparison is skipped where the reference tokenizer is itself inconsistent (doubled braces, coordinates after non-ASCII text)"],
+    "assumptions": ["reference = ast.parse / tokenize of the CPython 3.12 running the check", "raw f-strings with a backslash inside a format spec are excluded and counted: CPython 3.12.1 decodes escapes there but not in the literal's text", "token comparison is skipped where the reference tokenizer is itself inconsistent (doubled braces, coordinates after non-ASCII text)"],
 }
 
 import re
 
 DEBUG_WITH_HASH = re.compile(r"\{[^{}]*#[^{}]*=\s*[!:}]", re.S)
+RAW_PREFIX = re.compile(r"""(?i)(?<![A-Za-z0-9_])(?:rf|fr)(?=['"])""")
+BACKSLASH_IN_SPEC = re.compile(r""":[^{}'"\n]*\\""")
 
 NT_FEATURES = {"conversion", "debug=", "spec", "empty-spec", "nested-spec-field", "nested-fstring", "escape", "doubled-brace", "multi-line-field", "newline-in-text", "concat-plain-after", "concat-plain-before", "concat-fstring", "two-fstrings-on-line", "brace-after-on-line", "fstrings-on-separate-lines", "concat-across-lines", "backslash-in-field", "raw-backslash"}
 
@@ -96,6 +101,9 @@ EDGE_FORMS = ['f\'{a:{f"{b:{c:{d}}}"}}\'', 'f\'{o:{a:{f"{b:{c}}"}}}\'', "f'{a:{b
 RUN_PIECES = ["''", "'x'", "f''", "f'{a}'", "f'\\\n'", "f'y'", "f'\\\nq'", "f'{a}\\\n'", "u'v'", "'''\n'''", "f'''{b}\n'''", 'f"{c}\\\n{d}"', "u''", 'r"\\"']
 
 
+INNER_PIECES = ["\\\n", "{f=}", "{g}", "y", "{{", "}}", "{h:>3}", "{k = }", "{m:\\\n}", " ", "{n:{w}}", "\\t", "{p!r}"]
+
+
 def strip_empty_spec_constants(tree):
     """CPython 3.12.1 appends Constant('') to a format spec that ends in a nested field; an empty
     constant in a spec means nothing, so it is dropped from both trees before comparing"""
@@ -138,6 +146,11 @@ def check(rec, case):
         # the reference is unreliable for '#' inside a '=' field, in both directions
         rec.exclude("hash-inside-debug-field(reference-bug)")
         return
+    if RAW_PREFIX.search(src) and "\\" in src and any("\\" in (ast.get_source_segment(src, n.format_spec) or "") for n in ast.walk(c.tree) if isinstance(n, ast.FormattedValue) and n.format_spec is not None):
+        # CPython 3.12.1 decodes backslash escapes inside the format spec of a RAW f-string (rf'{d:\t}' has a tab in its
+        # spec, rf'\t{d}' a backslash and a 't' in its text): the reference contradicts itself and the language reference
+        rec.exclude("backslash-in-spec-of-raw-f-string(reference-bug)")
+        return
     nt = has_field(c.tree) and (bool(feats & NT_FEATURES) or stream == "corpus")
     labels = [f"stream:{stream}"] + [f"feature:{f}" for f in sorted(feats)]
     rec.case(case, nt, labels=labels, key=src)
@@ -168,6 +181,25 @@ def check(rec, case):
     dt = compare_tokens(ours(val), b)
     if dt is not None:
         rec.fail(case, dt[0], dt[1])
+        return
+    if "\\\n" in src and "\r" not in src:
+        # the same text with CRLF line ends, token level only (the parser's entry points translate line ends, generate_tokens
+        # gets them as they are): a backslash still continues the line it ends
+        crlf = src.replace("\n", "\r\n")
+        try:
+            b2 = theirs(crlf)
+        except (pytok.TokenError, SyntaxError, IndentationError, ValueError, SystemError):
+            return
+        if b2 is None:
+            return
+        rec.count("crlf-token-comparisons")
+        kind, val = tokens_outcome(crlf)
+        if kind != "tokens":
+            rec.fail(dict(case, crlf_variant=True), f"tokens-rejected:crlf:{val.etype}", {"outcome": [str(x)[:160] for x in val.canon()]})
+            return
+        dt = compare_tokens(ours(val), b2)
+        if dt is not None:
+            rec.fail(dict(case, crlf_variant=True), "crlf:" + dt[0], dt[1])
 
 
 def search(rec, ctx):
@@ -185,12 +217,25 @@ def search(rec, ctx):
     for combo in ctx.shard(runs):
         check(rec, {"src": "x = (" + " ".join(combo) + ")\n", "stream": "literal-runs", "features": ["edge-form"]})
 
+    # ... and runs of pieces inside ONE literal: text, text that is empty once decoded, doubled braces, plain / debug / spec
+    # fields, in a single-quoted and a triple-quoted literal (which piece the merged constants take their spans from)
+    inner = [c for k in (1, 2, 3) for c in itertools.product(INNER_PIECES, repeat=k)]
+    inner += [tuple(rrng.choice(INNER_PIECES) for _ in range(rrng.choice([4, 5]))) for _ in range(4000 if ctx.thorough else 500)]
+    for j, combo in enumerate(ctx.shard(inner)):
+        q = "'" if j % 2 else '"""'
+        check(rec, {"src": "x = f" + q + "".join(combo) + q + "\n", "stream": "piece-runs", "features": ["edge-form"]})
+
     def gen(rnd):
         g = FGen(rnd, nonascii=rnd.random() < 0.1)
         src = g.statement()
         check(rec, {"src": src, "stream": "g7", "features": sorted(g.feats)})
 
     drive(st.randoms(use_true_random=False), gen, ctx.budget(48000, 400000), ctx.hseed("g7"))
+    # literal text made of backslashes, quotes of every kind, braces and fields in every delimiter: what CPython accepts
+    # must come out with CPython's tree
+    from ..gen.fstr import text_soup
+
+    drive(st.randoms(use_true_random=False), lambda rnd: check(rec, {"src": text_soup(rnd), "stream": "text-soup", "features": ["edge-form"]}), ctx.budget(8000, 100000), ctx.hseed("soup"))
 
     crng = ctx.rng("corpus")
     files = corpus.test_data_files() + (list(ctx.shard(corpus.stdlib_files())) if ctx.thorough else crng.sample(corpus.stdlib_files(), min(12, len(corpus.stdlib_files()))))
